@@ -65,9 +65,9 @@ _seen_keys = collections.Counter()
 
 
 def V(key, what, witness=None):
-    """At most two witnesses per mechanism and worker (the runner writes one replay file per witness)."""
+    """One witness per mechanism and worker (the runner writes one replay file per witness)."""
     _seen_keys[key] += 1
-    if _seen_keys[key] <= 2:
+    if _seen_keys[key] <= 1:
         core.CURRENT.violation(key, what, witness)
     else:
         core.CURRENT._viol_keys[key] += 1
